@@ -790,9 +790,27 @@ func runSemPass1(cx *Ctx, carried []absint.CarriedLoc) (rs *runSem, changed []ab
 	for _, a := range c.AtomsIn(entry) {
 		entryAtoms[a] = true
 	}
+	// a context whose Done() is nil can never be cancelled, so a poll that is
+	// skipped for it misses nothing: the rules below are judged for contexts that
+	// can be cancelled (Done() != nil) - the decision must hold up under that
+	// assumption, not merely mention it
+	cancellable := bdd.True
+	for _, a := range c.AtomsIn(cancel) {
+		if strings.HasPrefix(a, "IsNil(done:") {
+			cancellable = M.And(cancellable, M.Not(c.Atom(a, 1)[0]))
+		}
+	}
+	cancelC := cancel
+	if cancellable != bdd.True {
+		if M.And(cancel, cancellable) == bdd.False {
+			rs.violations = append(rs.violations, "cancellation is only looked for when the context's Done() is nil (a context that can never be cancelled): a cancellable context is never observed")
+		} else {
+			cancelC = M.Constrain(cancel, M.And(entry, cancellable))
+		}
+	}
 	freshObs := false
 	notCancel := M.And(M.And(entry, M.Not(cancel)), M.Not(preExit)) // = the iteration Steps
-	for _, a := range c.AtomsIn(cancel) {
+	for _, a := range c.AtomsIn(cancelC) {
 		obs := false
 		for _, pre := range []string{"atomic.Load@", "shared(", "ctx.Err@", "atomic.Pointer@", "ctx.Done-ready@", "chan-ready(", "IsNil(recv(", "IsNil(ctx.Err@", "IsNil(shared(", "IsNil(atomic.Pointer@"} {
 			if strings.HasPrefix(a, pre) {
@@ -820,7 +838,7 @@ func runSemPass1(cx *Ctx, carried []absint.CarriedLoc) (rs *runSem, changed []ab
 	// (a poll made only when some register has a certain value skips iterations)
 	reachPoll := M.And(entry, M.Not(preExit))
 	if cancel != bdd.False && reachPoll != bdd.False {
-		for _, a := range c.AtomsIn(M.Constrain(cancel, reachPoll)) {
+		for _, a := range c.AtomsIn(M.Constrain(cancel, M.And(reachPoll, cancellable))) {
 			if strings.HasPrefix(a, "loop1.mem(") || strings.HasPrefix(a, "PostStep") || strings.HasPrefix(a, "Init(") {
 				rs.violations = append(rs.violations, "whether an iteration tests cancellation depends on CPU state ("+a+"): iterations can go by without observing a cancellation")
 			}
@@ -864,6 +882,17 @@ func runSemPass1(cx *Ctx, carried []absint.CarriedLoc) (rs *runSem, changed []ab
 		}
 		if !w.sawPub && !pubByClose {
 			rs.watch = append(rs.watch, w.pos+": the goroutine never publishes the cancellation (no atomic store, no close of a channel Run polls)")
+		}
+	}
+	senders := map[string]int{}
+	for _, w := range watchers {
+		for dev := range w.sends {
+			senders[dev]++
+		}
+	}
+	for dev, n := range senders {
+		if n > 1 {
+			rs.watch = append(rs.watch, fmt.Sprintf("%d goroutines send on %s: the buffer has room for one of them only", n, dev))
 		}
 	}
 	for dev, pos := range polled {
